@@ -12,7 +12,9 @@ MOLS = {
     "He": dict(atom="He 0 0 0", basis={"He": [[0, [2.5, 1.0]], [0, [0.45, 1.0]], [1, [1.1, 1.0]]]}, spin=0),
     "LiH": dict(atom="Li 0 0 -0.35; H 0 0 1.25", basis="sto-3g", spin=0),
     "HF": dict(atom="F 0 0 0.05; H 0 0 0.97", basis="sto-3g", spin=0),
-    "H2O": dict(atom="O 0 0 0.1; H 0 0.76 -0.48; H 0 -0.76 -0.48", basis="sto-3g", spin=0),
+    # generic position, no symmetry: the two hydrogens are inequivalent and every atom has three distinct non-zero
+    # coordinates (a symmetric or axis-aligned geometry hides swapped atoms and swapped Cartesian components)
+    "H2O": dict(atom="O 0.03 -0.02 0.1; H 0.31 0.71 -0.48; H -0.27 -0.78 -0.41", basis="sto-3g", spin=0),
     "Li": dict(atom="Li 0 0 0", basis="sto-3g", spin=1),
     "OH": dict(atom="O 0 0 0; H 0 0.3 0.93", basis="sto-3g", spin=1),
     "NH2": dict(atom="N 0 0 0.14; H 0 0.80 -0.49; H 0 -0.80 -0.49", basis="sto-3g", spin=1),
@@ -287,7 +289,10 @@ def make_mlxc(settings, evals=("RBF",), mode="SEP", mul="LDA_X", add="ZERO", see
 
 
 # ----------------------------------------------------------------------------- calculators
-FAST_NLDF = dict(aux_lambd=2.0, nrad=60, alpha_max=2000.0)
+# coarse but COMPLETE discretisation: with the default spacing (dparam 0.04) 60 radial spline nodes end at 0.3 Bohr and
+# everything beyond is truncated (the features then lose all off-site content and whole force terms vanish); dparam 0.11
+# puts the 60 nodes on 0 ... 22 Bohr
+FAST_NLDF = dict(aux_lambd=2.0, nrad=60, dparam=0.11, alpha_max=2000.0)
 
 
 def make_ks(mol, mlxc, nspin=1, atom_grid=(20, 50), lmax=4, xmix=1.0, xkernel=None, ckernel=None, xc=None,
